@@ -22,4 +22,7 @@ func FuzzC19Series(f *testing.F) {
 	fuzzProp(f, "C19", "series", genC19Series(200), CheckC19Series)
 }
 func FuzzC19Exp(f *testing.F) { fuzzProp(f, "C19", "aggregates", genC19Exp(), CheckC19Exp) }
+func FuzzC16Interleaved(f *testing.F) {
+	fuzzProp(f, "C16", "interleaved", GenC16Interleaved(), CheckC16Interleaved)
+}
 func FuzzC20(f *testing.F)    { fuzzProp(f, "C20", "protocol", GenC20(), CheckC20) }
